@@ -57,6 +57,7 @@ def _case(msg_size, padlen, v4, v6, w4, w6, v4nh6=(), w6m=()):
     except Exception as e:  # noqa
         return {'what': f'messages() raised {type(e).__name__}: {e}', 'input': inp}
     got_a, got_w = set(), set()
+    count_a, count_w = {}, {}
     for m in msgs:
         if len(m) > msg_size:
             return {'what': f'UPDATE of {len(m)} bytes on a {msg_size} session', 'input': inp, 'sizes': [len(x) for x in msgs]}
@@ -69,8 +70,10 @@ def _case(msg_size, padlen, v4, v6, w4, w6, v4nh6=(), w6m=()):
             if not has_attrs:
                 return {'what': 'IPv4 NLRI announced without its attributes', 'input': inp}
             got_a.add((4, bits, body))
+            count_a[(4, bits, body)] = count_a.get((4, bits, body), 0) + 1
         for pid, lab, rd, bits, body in d['withdrawn']:
             got_w.add((4, bits, body))
+            count_w[(4, bits, body)] = count_w.get((4, bits, body), 0) + 1
         for afi, safi, nh, pfx in d['mp_reach']:
             if nh[:16] != socket.inet_pton(socket.AF_INET6, '2001:db8::1'):
                 return {'what': f'MP_REACH next hop {nh.hex()}', 'input': inp}
@@ -88,6 +91,9 @@ def _case(msg_size, padlen, v4, v6, w4, w6, v4nh6=(), w6m=()):
     exp_a = want(v4, 4) | want(v6, 6) | want(v4nh6, 46)
     exp_w = want(w4, 4) | want(w6, 6) | want(w6m, 62)
     room = msg_size - 23 - (padlen + (4 if padlen > 255 else 3)) - 7 - 4  # pad attribute, NEXT_HOP (7), ORIGIN (4)
+    twice = [k for k, n in list(count_a.items()) + list(count_w.items()) if n > 1]
+    if twice:
+        return {'what': f'the generated messages carry the same IPv4 route {max(count_a.get(twice[0], 0), count_w.get(twice[0], 0))} times (each requested route once, nothing else)', 'input': inp, 'twice': str(twice[:3])}
     if got_a - exp_a or got_w - exp_w:
         return {'what': 'messages carry something that was not requested', 'input': inp, 'extra': str((got_a - exp_a, got_w - exp_w))[:300]}
     if (exp_a - got_a or exp_w - got_w) and room >= 60:
@@ -117,6 +123,10 @@ def sizes(tier, seed):
                 ([], v6[:2], [], [], (), [('ff3e::', 32)]),
                 (v4[:1], [], [], [], [('14.0.0.0', 8), ('14.1.0.0', 16)], ()),
                 ([], v6[:1], v4[:1], [], [('15.0.0.0', 8)], [('ff3e:1::', 48)]),
+                # an IPv4 section which nearly fills the message, then MP announces and MP withdraws (these two shapes are
+                # where MP routes used to be dropped for lack of room beside what had been sent already)
+                (v4[:6], v6[:1], v4[6:9], []),
+                (v4[:2], v6[:4], v4[2:3], v6[4:6]),
             ]
             if tier == 'thorough':
                 for _ in range(4):
